@@ -472,6 +472,9 @@ package unmarshal
 //@   ensures result == nil
 //@   ensures rectangular: rectSpans(p.spans) && rectTags(p.attrs)
 //@   ensures ids-sized: idsSized(p.spans) && tagIdsSized(p.attrs)
+// a chunk that crossed the limit has been handed over and replaced by empty objects: the
+// parser never keeps appending to (and re-sending) what the insert side already owns
+//@   ensures chunk-over-the-limit-is-replaced: p.attrs.Size + p.spans.Size <= 1048576
 //@   check one-trace-row: p.spans == old(p.spans) ==> len(p.spans.MTraceId) == old(len(p.spans.MTraceId)) + 1 &&
 //@         p.spans.MTraceId[old(len(p.spans.MTraceId))] == traceId && p.spans.MSpanId[old(len(p.spans.MTraceId))] == spanId &&
 //@         p.spans.MTimestampNs[old(len(p.spans.MTraceId))] == timestampNs && p.spans.MDurationNs[old(len(p.spans.MTraceId))] == durationNs &&
